@@ -1864,6 +1864,24 @@ def configs(tier):
                         lst.append(c)
     for grp in itertools.zip_longest(*per_fam):
         cfgs.extend(c for c in grp if c is not None)
+    if thorough:
+        # breadth first: what the quick tier visits comes first, the deepest variants (second
+        # residual pattern, degenerate sub-gradients, non-palindromic x*, sub-pools under extra
+        # weightings) last, so that a run cut by the time budget loses only those
+        def norm(c):
+            return repr(sorted((k, v) for k, v in c.items() if k not in ('tier', 'deep', 'K')))
+        shallow = set(norm(c) for c in configs('quick'))
+
+        def depth(c):
+            if norm(c) in shallow:
+                return 0
+            d = 1
+            if c['kind'] == 'ns':
+                d += (c['pat'] == 1) + bool(c.get('deg')) + (tuple(c['xs']) != tuple(c['xs'][::-1]))
+            elif c.get('ill') or c.get('w') not in (None, 'plain'):
+                d += 1
+            return d
+        cfgs.sort(key=depth)            # stable: simplest-first order kept inside a level
     return cfgs
 
 
